@@ -4,7 +4,7 @@
         Q = T - C + sum(my - cheats) + J - L
    unchanged, for every interleaving of any number of processes. *)
 From Coq Require Import ZArith List.
-From Redo Require Import Tokens.Model Tokens.Proofs.
+From Redo Require Import Tokens.Model Tokens.Proofs Tokens.Cheats.
 Import ListNotations.
 Open Scope Z_scope.
 
@@ -33,6 +33,25 @@ Proof. exact bound. Qed.
 Check C08_bound : forall es pid n s,
   1 <= n -> run es (init pid n) = Some s -> J s - L s <= n + C s + cheats_out (procs s).
 Print Assumptions C08_bound.
+
+(* without log capture no cheat is ever granted: -j is respected exactly *)
+Theorem C08_bound_without_cheats : forall es pid n s,
+  1 <= n -> cheat_free es = true -> run es (init pid n) = Some s -> J s - L s <= n.
+Proof. exact bound_without_cheats. Qed.
+Check C08_bound_without_cheats : forall es pid n s,
+  1 <= n -> cheat_free es = true -> run es (init pid n) = Some s -> J s - L s <= n.
+Print Assumptions C08_bound_without_cheats.
+
+(* Known finding F50.  With log capture the property's "plus at most one extra"
+   is FALSE of the faithful model: C08_bound has C s (cheat bytes parked in the
+   pipe by processes that have ended) on its right-hand side and that term is
+   not bounded by one.  Witness: -j2, four scripts at work; the same shape is
+   run on the binaries by checks/c08.py (laundering_run) and scenarios/hb/3. *)
+Theorem C08_one_extra_refuted :
+  exists es s, run es (init 1 2) = Some s /\ J s - L s = 2 + 2.
+Proof. exact one_extra_refuted. Qed.
+Check C08_one_extra_refuted : exists es s, run es (init 1 2) = Some s /\ J s - L s = 2 + 2.
+Print Assumptions C08_one_extra_refuted.
 
 (* when everything has ended the top level finds exactly its n tokens: the
    "expected n tokens" self-test cannot fail *)
